@@ -532,8 +532,15 @@ func grammarCorpus() (good, bad []string) {
 		head + "A <- &{ ok() } 'a' / !{ no() } \"b\"\n",
 		head + "A <- [[a-f]] [^\\n] '\\0x2190' \"\\\"\" '\\''\n",
 		head + "A\n  <-\n  'a'\n",
+		// braces in actions are counted as they stand: quotes do not hide them, and a quote character in a rune literal opens nothing
+		head + "A <- 'a' { if text[0] == '\"' { n++ }; s += \"\" }\nB <- A\n",
+		head + "A <- . { for _, c := range text { if c == '\"' { s += \"}{\" } } }\nB <- A { s = \"{}\" }\n",
+		head + "A <- 'a' { s = \"a\\\"b\\\\\" } !.\n",
 	}
 	bad = []string{
+		// a brace inside a string of the action counts: this action is not closed
+		head + "A <- 'a' { f(\"{\") }\nB <- 'b'\n",
+		head + "A <- 'a' { f(\"}\") }\nB <- 'b'\n",
 		"",
 		"package p\n",
 		"package p\ntype G Peg {}\n",
